@@ -477,6 +477,32 @@ static bool doRead(Interp& I, const Step& s)
                 for (auto& v : want) if (v.t == VR) v.s = 20.0 * std::fabs(v.d) + 1.0;
             }
             if (!I.produce(dst0 + int(i), f, e, want, "readRootEdge")) { delete rd; return false; }
+            if (W.fs[size_t(f)].range == 'R' && W.fs[size_t(f)].label == 'M') {
+                // multi-terminal reals: the format prints terminals with 11 significant digits, which identifies a
+                // float; compare with the values the *library* held when it wrote (the original edge, if it is
+                // still there unchanged), not with the model: they must agree to that printed precision
+                const int orig = I.ioSlots[i];
+                if (I.liveSlot(orig) && sameKindForest(W.fs[size_t(W.slots[size_t(orig)].f)], W.fs[size_t(f)])
+                    && W.slots[size_t(orig)].T.size() == I.ioTables[i].size()) {
+                    bool sameT = true;
+                    for (size_t k = 0; sameT && k < I.ioTables[i].size(); k++) if (!exactVal(W.slots[size_t(orig)].T[k], I.ioTables[i][k])) sameT = false;
+                    Table a, b; Failure fl2;
+                    if (sameT && expandEdge(W, W.slots[size_t(orig)].f, *W.slots[size_t(orig)].e, a, fl2)
+                              && expandEdge(W, f, *W.slots[size_t(dst0 + int(i))].e, b, fl2) && a.size() == b.size()) {
+                        for (size_t k = 0; k < a.size(); k++) {
+                            if (a[k].t != VR || b[k].t != VR) continue;
+                            const double mag = std::max(std::fabs(a[k].d), std::fabs(b[k].d));
+                            if (std::fabs(a[k].d - b[k].d) > 1e-9 * mag) {
+                                char buf[200];
+                                snprintf(buf, sizeof buf, "real terminal written as %.10g came back as %.10g (root %zu): not the printed precision of the format", a[k].d, b[k].d, i);
+                                delete rd; return I.fail("C14.real-precision", buf);
+                            }
+                        }
+                        I.R.labels.add("read_real_values_compared_with_written");
+                        for (size_t k = 0; k < a.size(); k++) if (a[k].t == VR && std::fabs(a[k].d) >= 1000.0 && a[k].d != std::floor(a[k].d)) { I.R.labels.add("read_real_7_digits"); break; }
+                    }
+                }
+            }
             if (f == I.ioForest) {
                 const int orig = I.ioSlots[i];
                 if (I.liveSlot(orig) && W.slots[size_t(orig)].f == f) {
